@@ -235,6 +235,8 @@ class Evaluator:
         self.steps = 0
         self.depth = 0
         self.max_loop = 200
+        self.strict_index = False
+        self.events: List[Any] = []
         self.max_steps = max_steps
 
     # -- expressions -------------------------------------------------------------------------
@@ -347,19 +349,26 @@ class Evaluator:
         if isinstance(n, ast.Subscript):
             base = self.eval(n.value, env)
             if isinstance(base, Obj) and base.resolver is not None:
+                key = self.eval(n.slice, env)
+                if self.strict_index:
+                    self._strict(n, n.slice, key)
                 self._enter()
                 try:
-                    return base.resolver(base, "__getitem__")(self.eval(n.slice, env))
+                    return base.resolver(base, "__getitem__")(key)
                 finally:
                     self.depth -= 1
             if isinstance(n.slice, ast.Slice):
                 lo = None if n.slice.lower is None else self.eval(n.slice.lower, env)
                 hi = None if n.slice.upper is None else self.eval(n.slice.upper, env)
                 st = None if n.slice.step is None else self.eval(n.slice.step, env)
+                if self.strict_index:
+                    self._strict(n, n.slice, slice(lo, hi, st))
                 if not isinstance(base, (list, tuple, str)):
                     raise Undecided("slice of non-sequence")
                 return base[slice(lo, hi, st)]
             idx = self.eval(n.slice, env)
+            if self.strict_index and isinstance(base, (list, tuple, str)):
+                self._strict(n, n.slice, idx)
             if isinstance(base, dict):
                 try:
                     if idx in base:
@@ -418,6 +427,29 @@ class Evaluator:
 
         rec(0, env)
         return out
+
+    def _strict(self, whole: ast.AST, sl: ast.AST, key: Any) -> None:
+        """record computed (non-literal) negative indices / slice bounds: they silently wrap to the far edge"""
+        def literal_neg(e: Optional[ast.AST]) -> bool:
+            return e is None or isinstance(e, ast.Constant) or (
+                isinstance(e, ast.UnaryOp) and isinstance(e.op, ast.USub) and isinstance(e.operand, ast.Constant))
+
+        def one(e: Optional[ast.AST], v: Any) -> None:
+            if isinstance(e, ast.Slice):
+                if isinstance(v, slice):
+                    one(e.lower, v.start)
+                    one(e.upper, v.stop)
+                return
+            if isinstance(v, int) and not isinstance(v, bool) and v < 0 and not literal_neg(e):
+                self.events.append((norm(whole), norm(e) if e is not None else "", v, getattr(whole, "lineno", None)))
+
+        if isinstance(sl, ast.Tuple) and isinstance(key, tuple) and len(sl.elts) == len(key):
+            for e, v in zip(sl.elts, key):
+                one(e, v)
+        elif isinstance(sl, ast.Slice):
+            one(sl, key)
+        elif not isinstance(key, tuple):
+            one(sl, key)
 
     def _enter(self) -> None:
         self.depth += 1
